@@ -37,8 +37,8 @@ theorem deferred_run_some (o : WOpts) (ops : List DOp) : ∀ (d : Deferred) (s :
     intro d s hw
     rw [run_cons]
     cases op with
-    | onPut id once =>
-      have := ih (d.step o (.onPut id once)).1 s (by simpa [Deferred.step] using hw)
+    | onPut id once sp =>
+      have := ih (d.step o (.onPut id once sp)).1 s (by simpa [Deferred.step] using hw)
       simpa [Deferred.step, projOps] using this
     | has c =>
       have hst : (d.step o (.has c)).1 = d := by
@@ -75,8 +75,8 @@ theorem deferred_run_fresh (o : WOpts) (ops : List DOp) : ∀ (d : Deferred), d.
     intro d hw hc
     rw [run_cons]
     cases op with
-    | onPut id once =>
-      have := ih (d.step o (.onPut id once)).1 (by simpa [Deferred.step] using hw) (by simpa [Deferred.step] using hc)
+    | onPut id once sp =>
+      have := ih (d.step o (.onPut id once sp)).1 (by simpa [Deferred.step] using hw) (by simpa [Deferred.step] using hc)
       simpa [Deferred.step, projFresh] using this
     | has c =>
       have hst : (d.step o (.has c)).1 = d := by simp [Deferred.step, hc, hw]
@@ -100,7 +100,7 @@ theorem deferred_run_fresh (o : WOpts) (ops : List DOp) : ∀ (d : Deferred), d.
           intro d hw hc
           rw [run_cons]
           cases op with
-          | onPut id once => exact ih2 _ (by simpa [Deferred.step] using hw) (by simpa [Deferred.step] using hc)
+          | onPut id once sp => exact ih2 _ (by simpa [Deferred.step] using hw) (by simpa [Deferred.step] using hc)
           | has c => have : (d.step o (.has c)).1 = d := by simp [Deferred.step, hc]
                      rw [this]; exact ih2 d hw hc
           | put c data => have : (d.step o (.put c data)).1 = d := by simp [Deferred.step, hc]
